@@ -643,6 +643,7 @@ def build_program(pid, gadgets, rng):
             body = Body(1 if kind == "func" else 2)
             for g in part:
                 ctx = Ctx(prog, g, 0, 0, True, "flag")
+                ctx.maybe_str = g["sk"] == "fread_this"      # the field is initialised with a string constant
                 x = emit_source(ctx, body, params)
                 emit_chain(ctx, body, [tuple(c) for c in g["chain"]], x)
             pnames, tags = [], []
@@ -661,6 +662,9 @@ def build_program(pid, gadgets, rng):
                 blk.add("def __init__(self):")
                 blk.ind = 2
                 blk.add(f"self.plain{pid} = {_const(prog)}")
+                for g in part:
+                    if g["sk"] == "fread_this":
+                        blk.add(f"self.{source_name(g)[1].split('.')[1]} = {_const(prog)}")
                 blk.ind = 1
                 blk.add(f"def {hname}({', '.join(['self'] + pnames + ['flag'])}):", tags or None)
                 prog.entries.append(("method", cls, hname))
